@@ -345,6 +345,11 @@ func (c *Ctx) rulePathSeg(rule string) {
 					continue
 				}
 				child = call
+				// the failure was seen in a helper (the fact came with the outcome of the call cond.Via): here it is the
+				// helper's error that stands for the child's - the helper's own return is examined where it is written
+				if cond.Via != nil && call.Parent() != fn {
+					child = cond.Via
+				}
 				break
 			}
 			if child == nil {
